@@ -130,6 +130,17 @@ func violation(t fataler, prop, sub string, c interface{}, format string, a ...i
 	t.Fatalf("VERIF-FAIL property=%s sub=%s replay=%s :: %s", prop, sub, path, msg)
 }
 
+// fatalViolation reports a property failure and ends the process at once: for failures after
+// which the process cannot go on measuring (work that would not finish).
+func fatalViolation(prop, sub string, c interface{}, format string, a ...interface{}) {
+	msg := fmt.Sprintf(format, a...)
+	path := writeReplay(prop, sub, c, msg)
+	stats.R.Fail(prop, path, msg)
+	stats.R.Flush()
+	fmt.Printf("VERIF-FAIL property=%s sub=%s replay=%s :: %s\n", prop, sub, path, strings.ReplaceAll(msg, "\n", " / "))
+	os.Exit(1)
+}
+
 func caseKey(c interface{}) string {
 	b, err := json.Marshal(c)
 	if err != nil {
